@@ -14,6 +14,14 @@ CHECKS["C01"] = dict(level="model_checking", engine="E1-enum",
    text="Every content list of length <=2 over an alphabet of 25 (thorough 36) entry templates + 15 packager-tagged ones (thorough: also triples over the 12 simplest), crossed with every <=1-deviation build setting (umask, mtime A/B/unset, disable_globbing, deb compression xz/zstd/none, rpm compression gzip:9/xz/lzma/zstd/zstd:fastest), is built for all five formats through Parse->Get->WithDefaults->Package. The payload is decoded by harness-owned ar/tar/cpio/rpm-header readers and compared entry by entry (path set, bytes, 12 mode bits, owner, group, mtime, link target, implied parents, rpm without implied dirs) with the reference plan. Exhaustive within that alphabet.",
    note="Trusted: reference planner mc/model/plan.go; decoders in mc/pkgread (stdlib tar/gzip readers, own ar/cpio/rpm parsers, xi2/xz, klauspost zstd decoder, xz CLI for lzma); symlink modes and directory mtimes not compared.",
    ref="§3 C01")
+CHECKS["C08"] = dict(level="model_checking", engine="E1-enum",
+   technique="exhaustive enumeration of (entry type x packager tag x format) and type pairs on the real packagers, incl. a validate+all-formats operation history on one parsed config; decoded conffiles / FILEFLAGS / backup vs declaration",
+   text="Every (13 entry types x 6 packager tags) singleton with and without file_info, each paired with a plain file, every ordered pair of types, and config globs / directory sources that expand to several files are built for all five formats - once from a fresh parse and again after Validate plus every other format on one parsed configuration (two orders). deb/ipk conffiles, rpm FILEFLAGS / ghost mode / cpio presence, archlinux backup lines and the absence of rpm-only entries elsewhere are compared with the declaration. Exhaustive over the type x tag x format matrix.",
+   note="Trusted: reference planner for the expected entry set; rpm flag constants from rpm's rpmfiles.h; pkgread decoders.", ref="§3 C08")
+CHECKS["C09"] = dict(level="model_checking", engine="E1-enum",
+   technique="exhaustive enumeration of all subsets of script slots per format x script byte classes, incl. a rebuild after the script files were rewritten; slot bytes decoded from the real packages",
+   text="All 2^7+2^7+2^6+2^6+2^4 subsets of configurable script slots x byte classes (normal, no trailing newline, CRLF, bytes 0x80-0xff, one file shared by all slots; thorough: empty, NUL) are packaged for real; every slot's bytes are decoded from control members / rpm scriptlet tags / .INSTALL functions and must equal the configured file, slots populated iff configured, modes 0755/0644. Every non-empty subset is also rebuilt after a priming build whose script files (same paths) held other bytes.",
+   note="Trusted: pkgread decoders incl. the .INSTALL function splitter; rpm scriptlets with NUL excluded (impossible by format).", ref="§3 C09")
 NOT_YET = {}
 ALL = ["C%02d" % i for i in range(1, 18)]
 
